@@ -72,6 +72,28 @@ def jobs(tier, seed):
         else:
             c2 = {"in": ys, "out": ["z"], "a": [{v: sgn for v in ys}], "g": [{"z": 1, "y0": -1}]}
         out.append({"kind": "three-links:" + where, "wiring": "three-links", "c1": c1, "c2": c2, "order": rng.choice(["12", "21"]), "keep": [], "simplify": rng.random() < 0.5, "tactics": rng.choice([None, [1], [3], [1, 2, 3, 4, 5], [5, 1]])})
+    # the column-sum boundary of tactic 1 made deliberate: two rows put weights on the same third variable whose own row
+    # is pure, so that only the *accumulated* off-diagonal weight (0.6 + 0.6, 0.75 + 0.6) exceeds the diagonal
+    col_jobs = []
+    for col in range(3):
+        for sgn in (1, -1):
+            for w1, w2 in ((0.6, 0.6), (0.75, 0.6), (0.4, 0.4)):
+                g1 = []
+                for r, dv in enumerate(ys):
+                    row = {dv: 1}
+                    if r != col:
+                        row[ys[col]] = w1 if len(g1) == (0 if col else 1) else w2
+                    row[f"x{r}"] = -1
+                    g1.append({k: sgn * v for k, v in row.items()})
+                c1 = {"in": ["x0", "x1", "x2"], "out": ys, "a": [], "g": g1}
+                for where in ("g", "a"):
+                    if where == "g":
+                        c2 = {"in": ys, "out": ["z"], "a": [], "g": [dict({v: -sgn for v in ys}, z=sgn)]}
+                    else:
+                        c2 = {"in": ys, "out": ["z"], "a": [{v: sgn for v in ys}], "g": [{"z": 1, "y0": -1}]}
+                    for tac in (None, [1], [3, 1]):
+                        col_jobs.append({"kind": "three-links:column-sum:" + where, "wiring": "three-links", "c1": c1, "c2": c2, "order": rng.choice(["12", "21"]), "keep": [], "simplify": rng.random() < 0.5, "tactics": tac})
+    out.extend(col_jobs if tier == "thorough" else rng.sample(col_jobs, 16))
     return out
 
 
